@@ -144,6 +144,17 @@ public:
     template <typename Lock, typename Pred> void wait(Lock &lk, Pred pred) {
         while (!pred()) wait(lk);
     }
+    // timed waits: under the controlled scheduler any wake-up (a notification or the schedule's "spurious" wake-up) may be
+    // the time-out, so a timed wait blocks at most once and then reports the time-out / the predicate's value; correct
+    // callers re-check their condition anyway
+    template <typename Lock, typename Rep, typename Period>
+    std::cv_status wait_for(Lock &lk, const std::chrono::duration<Rep, Period> &) { wait(lk); return std::cv_status::timeout; }
+    template <typename Lock, typename Rep, typename Period, typename Pred>
+    bool wait_for(Lock &lk, const std::chrono::duration<Rep, Period> &, Pred pred) { if (pred()) return true; wait(lk); return pred(); }
+    template <typename Lock, typename Clock, typename Duration>
+    std::cv_status wait_until(Lock &lk, const std::chrono::time_point<Clock, Duration> &) { wait(lk); return std::cv_status::timeout; }
+    template <typename Lock, typename Clock, typename Duration, typename Pred>
+    bool wait_until(Lock &lk, const std::chrono::time_point<Clock, Duration> &, Pred pred) { if (pred()) return true; wait(lk); return pred(); }
     void notify_all() {
         if (self) { self->notifyAll = true; yield(R_PRE_NOTIFY, this); }
         for (auto *w : waiters) w->notified = true;
